@@ -289,6 +289,180 @@ fn get_utxos_internal(state: &State, address: &u64, min_confirmations: u32, page
 //@| }
 //@end
 
+// ---- get_block_headers: base + min(instructions/10 x rate, maximum - base); only the base on a request-level error ----
+//@extract file=canister/src/api/get_block_headers.rs item="struct Stats"
+//@ rewrite R2? "#\[derive\(([^\]]*)\)\]" => ""
+//@ rewrite R3 "struct Stats" => "struct HeadersStats"
+//@end
+struct GetBlockHeadersRequest2 { payload: u64 }
+struct GetBlockHeadersResponse { payload: u64 }
+struct GetBlockHeadersError { code: u8 }
+// [trusted:stand-in] get_block_headers_internal: the endpoint body (reads the state only)
+#[verifier::external_body]
+fn get_block_headers_internal(request: &GetBlockHeadersRequest2) -> (r: Result<(GetBlockHeadersResponse, HeadersStats), GetBlockHeadersError>)
+{ unimplemented!() }
+
+//@extract file=canister/src/api/get_block_headers.rs item="fn get_block_headers" props=C16 mode=refuse
+//@ ret r
+//@ sigrewrite R7 "request: GetBlockHeadersRequest," => "vp_rt: &mut CyclesRt, request: GetBlockHeadersRequest2,"
+//@ rewrite R7 "with_state\(\|s\| s\.fees\.(\w+)\)" => "vp_state().fees.\1"
+//@ rewrite R7 "verify_has_enough_cycles\(" => "verify_has_enough_cycles(vp_rt, "
+//@ rewrite R7 "charge_cycles\(" => "charge_cycles(vp_rt, "
+//@ rewrite R1 "with_state_mut\(\|s\| \{\s*(s\s*\.metrics\s*\.\w+\s*\.observe\([\w.]+\);\s*)+\}\);" => "/* R1: metrics observation removed */"
+//@ rewrite R7 "with_state\(\|s\| \{" => "{ let s: &State = vp_state(); {"
+//@ rewrite R7 "\}\);\s*// Print the number of instructions" => "} }; // Print the number of instructions"
+//@ spec
+//@| requires
+//@|     old(vp_rt).wf(),
+//@|     fees_sane(global_state().fees),
+//@| ensures
+//@|     old(vp_rt).available >= global_state().fees.get_block_headers_maximum,
+//@|     r.is_err() ==> final(vp_rt).accepted == old(vp_rt).accepted + global_state().fees.get_block_headers_base,
+//@|     r.is_ok() ==> exists|ins: u64| final(vp_rt).accepted == old(vp_rt).accepted + global_state().fees.get_block_headers_base
+//@|         + variable_fee(ins, global_state().fees.get_block_headers_cycles_per_ten_instructions, global_state().fees.get_block_headers_base, global_state().fees.get_block_headers_maximum),
+//@|     final(vp_rt).accepted <= old(vp_rt).accepted + global_state().fees.get_block_headers_maximum,
+//@ before "let fee = std::cmp::min("
+//@| proof {
+//@|     let a = (stats.ins_total / 10) as int; let b = s.fees.get_block_headers_cycles_per_ten_instructions as int;
+//@|     assert(a * b <= 0x1fff_ffff_ffff_ffff * 0x1_0000_0000_0000_0000) by(nonlinear_arith) requires 0 <= a <= 0x1fff_ffff_ffff_ffff, 0 <= b <= 0x1_0000_0000_0000_0000;
+//@|     assert(variable_fee(stats.ins_total, s.fees.get_block_headers_cycles_per_ten_instructions, s.fees.get_block_headers_base, s.fees.get_block_headers_maximum) <= s.fees.get_block_headers_maximum - s.fees.get_block_headers_base);
+//@| }
+//@end
+
+// ---- get_current_fee_percentiles: flat fee ---------------------------------------------------------------------------
+//@slice file=canister/src/api/fee_percentiles.rs item="fn get_current_fee_percentiles" to_before="let res = with_state_mut(|s| {" props=C16 mode=refuse
+//@ rewrite R7 "with_state\(\|s\| s\.fees\.(\w+)\)" => "vp_state().fees.\1"
+//@ rewrite R7 "verify_has_enough_cycles\(" => "verify_has_enough_cycles(vp_rt, "
+//@ rewrite R7 "charge_cycles\(" => "charge_cycles(vp_rt, "
+//@ head
+//@| // R8 slice: the charging prefix of get_current_fee_percentiles (everything before the first with_state_mut)
+//@| fn get_current_fee_percentiles_charging(vp_rt: &mut CyclesRt)
+//@|     requires old(vp_rt).wf(),
+//@|     ensures
+//@|         old(vp_rt).available >= global_state().fees.get_current_fee_percentiles_maximum,
+//@|         final(vp_rt).accepted == old(vp_rt).accepted + global_state().fees.get_current_fee_percentiles,
+//@end
+
+// ---------------------------------------------------------------------------------------------------------------------
+// C19 / C16 / C14: send_transaction (api/send_transaction.rs), everything before and including the forwarding call.
+// The async fn is extracted as a synchronous state-passing function: the thread-local state, the cycles interface and the
+// outgoing call are explicit parameters (R7); the awaited inter-canister call becomes `vp_out.forward(..)`.
+// ---------------------------------------------------------------------------------------------------------------------
+//@extract file=interface/src/lib.rs item="enum Flag"
+//@ rewrite R2 "#\[derive\(([^\]]*)\)\]" => "#[derive(Clone, Copy, PartialEq, Eq, Structural)]"
+//@ rewrite R2 "#\[default\]" => ""
+//@end
+#[derive(Clone, Copy, PartialEq, Eq, Structural)]
+struct Principal { id: u64 }
+struct SendMetrics { send_transaction_count: u64 }
+// [trusted:stand-in] the parts of the canister state send_transaction touches
+struct SendState { api_access: Flag, network: Network, fees: Fees, blocks_source: Principal, metrics: SendMetrics }
+impl SendState {
+    fn network(&self) -> (r: Network) ensures r == self.network { self.network }
+}
+//@extract file=canister/src/types.rs item="struct SendTransactionInternalRequest"
+//@ rewrite R2? "#\[derive\(([^\]]*)\)\]" => ""
+//@end
+//@extract file=interface/src/lib.rs item="enum SendTransactionError"
+//@ rewrite R2? "#\[derive\(([^\]]*)\)\]" => ""
+//@end
+// [trusted:stand-in] the outgoing inter-canister call to the block source: a log of what was forwarded
+struct Outbox { sent: Ghost<Seq<(Principal, Network, Seq<u8>)>> }
+impl Outbox {
+    // [trusted:assumed-contract] runtime::call_send_transaction_internal(..).await.expect(..): the payload is handed to the block source
+    #[verifier::external_body]
+    fn forward(&mut self, target: Principal, req: SendTransactionInternalRequest)
+        ensures final(self).sent@ == old(self).sent@.push((target, req.network, req.transaction@)),
+    { unimplemented!() }
+}
+// [trusted:stand-in] bitcoin::Transaction and the consensus decoders of rust-bitcoin (uninterpreted):
+//   is_tx_encoding(b): b is exactly the consensus serialisation of one transaction (nothing before or after it)
+//   has_tx_prefix(b):  some prefix of b is such a serialisation
+struct Transaction { id: u64 }
+struct DecodeError { code: u8 }
+uninterp spec fn is_tx_encoding(b: Seq<u8>) -> bool;
+uninterp spec fn has_tx_prefix(b: Seq<u8>) -> bool;
+// [trusted:assumed-spec] bitcoin::consensus::deserialize: Ok iff the WHOLE input is one transaction ("data not consumed entirely" otherwise)
+#[verifier::external_body]
+fn vp_deserialize(data: &Vec<u8>) -> (r: Result<Transaction, DecodeError>)
+    ensures r.is_ok() <==> is_tx_encoding(data@),
+{ unimplemented!() }
+impl Transaction {
+    // [trusted:assumed-spec] Decodable::consensus_decode on a slice reader: decodes a PREFIX and leaves the rest unread
+    #[verifier::external_body]
+    fn consensus_decode(r: &mut &[u8]) -> (res: Result<Transaction, DecodeError>)
+        ensures res.is_ok() <==> has_tx_prefix(old(r)@),
+    { unimplemented!() }
+}
+mod bitcoin {
+    pub(crate) mod consensus {
+        pub(crate) use super::super::vp_deserialize as deserialize;
+    }
+}
+#[verifier::external_body]
+proof fn axiom_encoding_has_prefix(b: Seq<u8>)
+    ensures is_tx_encoding(b) ==> has_tx_prefix(b),
+{}
+
+//@extract file=canister/src/lib.rs item="fn verify_api_access" props=C19,C14 mode=refuse rename=send_verify_api_access
+//@ sigrewrite R7 "fn verify_api_access\(\)" => "fn verify_api_access(state: &SendState)"
+//@ rewrite R7 "with_state\(\|state\| \{" => "{ {"
+//@ rewrite R7 "\}\);\s*\}$" => "}; } }"
+//@ spec
+//@| ensures state.api_access != Flag::Disabled,
+//@end
+//@extract file=canister/src/lib.rs item="fn verify_network" props=C19,C14 mode=refuse rename=send_verify_network
+//@ sigrewrite R7 "fn verify_network\(network: Network\)" => "fn verify_network(state: &SendState, network: Network)"
+//@ rewrite R7 "with_state\(\|state\| \{" => "{ {"
+//@ rewrite R7 "\}\);\s*\}$" => "}; } }"
+//@ spec
+//@| ensures state.network == network,
+//@end
+
+// C19, written from the statement
+spec fn send_accepts(st: &SendState, req: &SendTransactionRequest) -> bool {
+    st.api_access != Flag::Disabled && net_of(req.network) == st.network && is_tx_encoding(req.transaction@)
+}
+
+//@extract file=canister/src/api/send_transaction.rs item="fn send_transaction" props=C19,C16,C14 mode=refuse
+//@ ret r
+//@ sigrewrite R7 "async fn send_transaction\(request: SendTransactionRequest\)" => "fn send_transaction(vp_rt: &mut CyclesRt, vp_st: &mut SendState, vp_out: &mut Outbox, request: SendTransactionRequest)"
+//@ rewrite R7 "verify_api_access\(\);" => "send_verify_api_access(vp_st);"
+//@ rewrite R7 "verify_network\(request\.network\.into\(\)\);" => "send_verify_network(vp_st, request.network.into());"
+//@ rewrite R7 "charge_cycles\(with_state\(\|s\| \{" => "charge_cycles(vp_rt, { let s: &SendState = &*vp_st; {"
+//@ rewrite R7 "\}\)\);" => "} });"
+//@ rewrite R10 "let tx(: Transaction)? = (.*?)\s*\.map_err\(\|_\| SendTransactionError::MalformedTransaction\)\?;" => "let tx\1 = match \2 { Ok(t) => t, Err(_) => { return Err(SendTransactionError::MalformedTransaction); } };"
+//@ rewrite R7 "with_state_mut\(\|s\| \{" => "{ let s: &mut SendState = &mut *vp_st; {"
+//@ rewrite R7 "\}\);\s*// Use the internal endpoint" => "} }; // Use the internal endpoint"
+//@ rewrite R7 "runtime::call_send_transaction_internal\(\s*with_state\(\|s\| s\.blocks_source\),\s*(SendTransactionInternalRequest \{.*?\}),\s*\)\s*\.await\s*\.expect\(\"[^\"]*\"\);" => "vp_out.forward(vp_st.blocks_source, \1);"
+//@ spec
+//@| requires
+//@|     old(vp_rt).wf(),
+//@|     // [assumption, stated] fee configuration: base + per_byte x length fits u128
+//@|     old(vp_st).fees.send_transaction_base < 0x8000_0000_0000_0000_0000_0000_0000_0000 && old(vp_st).fees.send_transaction_per_byte < 0x1_0000_0000,
+//@|     old(vp_st).metrics.send_transaction_count < u64::MAX,
+//@| ensures
+//@|     // it returns at all only if API access is enabled and the request names the canister's network (otherwise the call is refused)
+//@|     old(vp_st).api_access != Flag::Disabled && net_of(request.network) == old(vp_st).network,
+//@|     // succeeds, counts and forwards the payload unchanged iff the payload is exactly one transaction
+//@|     r.is_ok() <==> is_tx_encoding(request.transaction@),
+//@|     r.is_ok() ==> final(vp_out).sent@ == old(vp_out).sent@.push((old(vp_st).blocks_source, old(vp_st).network, request.transaction@))
+//@|         && final(vp_st).metrics.send_transaction_count == old(vp_st).metrics.send_transaction_count + 1,
+//@|     // every other payload: MalformedTransaction, nothing forwarded, nothing counted
+//@|     r.is_err() ==> r == Err::<(), SendTransactionError>(SendTransactionError::MalformedTransaction) && final(vp_out).sent@ == old(vp_out).sent@
+//@|         && final(vp_st).metrics.send_transaction_count == old(vp_st).metrics.send_transaction_count,
+//@|     // C16: base + per_byte x payload length is accepted in both cases
+//@|     final(vp_rt).accepted == old(vp_rt).accepted + old(vp_st).fees.send_transaction_base + old(vp_st).fees.send_transaction_per_byte * request.transaction@.len(),
+//@|     final(vp_st).api_access == old(vp_st).api_access && final(vp_st).network == old(vp_st).network && final(vp_st).fees == old(vp_st).fees,
+//@ before "charge_cycles(vp_rt"
+//@| proof {
+//@|     let l = request.transaction.len() as int; let pb = vp_st.fees.send_transaction_per_byte as int;
+//@|     assert(l == request.transaction@.len());
+//@|     assert(usize::MAX <= 0xffff_ffff_ffff_ffff) by { vstd::layout::unsigned_int_max_values(); }
+//@|     assert(pb * l <= 0x1_0000_0000 * 0xffff_ffff_ffff_ffff) by(nonlinear_arith) requires 0 <= pb <= 0x1_0000_0000, 0 <= l <= 0xffff_ffff_ffff_ffff;
+//@| }
+//@end
+
 proof fn vp_canary_axioms()
     ensures false,
 {}
